@@ -50,10 +50,10 @@ type Instance struct {
 	TypeErrs []string
 	Torn     []string
 	basicRep map[*geval.SymType]string
-	Mode     string            // decls | stmts | expr
-	Operands []Operand         // stmts/expr: the operand parameters of the wrapper
-	RetType  string            // stmts/expr: result type of the wrapper
-	Wrapper  string            // name of the wrapper function
+	Mode     string    // decls | stmts | expr
+	Operands []Operand // stmts/expr: the operand parameters of the wrapper
+	RetType  string    // stmts/expr: result type of the wrapper
+	Wrapper  string    // name of the wrapper function
 }
 
 // Operand is one operand-text parameter of a statement/expression generator.
